@@ -408,7 +408,7 @@ Proof.
   unfold shatom_result, sh_atom.
   destruct s as [|c s]; [exists iw; left; reflexivity|].
   destruct (expr (c :: s)) as [[t r]|] eqn:E.
-  - destruct (Hexpr _ _ _ E) as [E1 E2]. exists iw. right. exists (mk_atom ShtExpr t q), r.
+  - destruct (Hexpr _ _ _ E) as [E1 E2]. exists true. right. exists (mk_atom ShtExpr t q), r.
     split; [reflexivity|]. repeat split; auto. discriminate.
   - match goal with |- context [bind ?X _] =>
       assert (H : atom_ok (c :: s) X) by apply sh_atom_dispatch_ok;
